@@ -293,6 +293,39 @@ func judge(e *env, m *model, pre map[string]string, period time.Duration, res *r
 	for _, c := range fresh.List(labels.Everything()) {
 		loaded[c.Name] = content(c)
 	}
+	// and when the API fails the gaining server's one List call: Load either reports the failure or has loaded everything
+	own := 0
+	for _, c := range p {
+		if strings.HasPrefix(c, u0) {
+			own++
+		}
+	}
+	if own > 0 {
+		for _, kind := range []string{"NotFound", "ServerTimeout", "InternalError"} {
+			armed := true
+			kind := kind
+			e.gw.PrependReactor("list", "ratelimitconditions", func(k8stesting.Action) (bool, runtime.Object, error) {
+				if !armed {
+					return false, nil, nil
+				}
+				armed = false
+				gr := schema.GroupResource{Group: "proxy.kubegateway.io", Resource: "ratelimitconditions"}
+				switch kind {
+				case "NotFound":
+					return true, nil, apierrors.NewNotFound(gr, "")
+				case "ServerTimeout":
+					return true, nil, apierrors.NewServerTimeout(gr, "list", 1)
+				}
+				return true, nil, apierrors.NewInternalError(fmt.Errorf("etcd unavailable"))
+			})
+			second := k8s.NewK8sCacheStore(e.gw, 0, 0, 2)
+			err := second.Load()
+			armed = false
+			if n := len(second.List(labels.Everything())); err == nil && n != own {
+				add("load-succeeds-partially: the gaining server's List call was answered %s; Load reported success with %d of the shard's %d persisted conditions", kind, n, own)
+			}
+		}
+	}
 	for n, c := range p {
 		mine := strings.HasPrefix(c, u0)
 		if got, ok := loaded[n]; mine && (!ok || got != c) {
